@@ -69,8 +69,15 @@ def gen_atom(rng, names, rich, ctx):
         return ["pred", "BothPositive", [["var", v], ["var", w]]]
     if k < 0.94:
         return ["pred", "AGreater", [["var", v], ["lit", rng.randint(0, 1)]]]
-    if k < 0.96:
+    if k < 0.95:
         return ["hastype", ["var", v], "Q"]
+    if k < 0.965:
+        # partially ordered operands: floats with NaN, frozensets (proper-subset order)
+        w = rng.choice(names)
+        if rng.random() < 0.5:
+            return ["cmp", rng.choice(CMP), ["attr", ["var", v], "f"],
+                    ["attr", ["var", w], "f"] if rng.random() < 0.5 else ["lit", rng.choice([0.0, 1.0, 2.5])]]
+        return ["cmp", rng.choice(CMP), ["attr", ["var", v], "fs"], ["attr", ["var", w], "fs"]]
     if k < 0.98:
         w = rng.choice(names)
         return ["cmp", rng.choice(CMP), ["fn", "sum_ab", {"x": ["var", v], "y": ["var", w]}], ["lit", rng.randint(1, 4)]]
@@ -180,6 +187,32 @@ def gen_exists(rng, form=None, falsy_lit=False):
         sel = [["var", "y"]]
     mode = rng.choice(["entity", "set_of"])
     return {"world": world, "vars": vars_, "derived": derived, "cond": cond, "select": sel, "mode": mode, "form": form}
+
+
+def gen_partial_order(rng):
+    """ordering comparisons over operands that are only partially ordered (NaN floats, frozensets), often negated:
+    not (a < b) is not (a >= b) there"""
+    world = G.gen_world(rng)
+    vars_ = gen_vars(rng, world, rng.choice([1, 2]), allow_empty=False)
+    names = [v["name"] for v in vars_]
+
+    def atom():
+        v, w = rng.choice(names), rng.choice(names)
+        op = rng.choice(["<", "<=", ">", ">="] * 2 + ["==", "!="])
+        if rng.random() < 0.5:
+            return ["cmp", op, ["attr", ["var", v], "f"], ["attr", ["var", w], "f"] if rng.random() < 0.6 else ["lit", rng.choice([0.0, 1.0, 2.5])]]
+        return ["cmp", op, ["attr", ["var", v], "fs"], ["attr", ["var", w], "fs"]]
+
+    c = atom()
+    r = rng.random()
+    if r < 0.5:
+        c = ["not", c]
+    elif r < 0.7:
+        c = ["and", ["not", c], atom()]
+    elif r < 0.85:
+        c = ["not", ["and", c, atom()]]
+    sel = rng.sample(names, rng.randint(1, len(names)))
+    return {"world": world, "vars": vars_, "derived": [], "cond": c, "select": [["var", n] for n in sel], "mode": "set_of"}
 
 
 def gen_fnfalsy(rng):
